@@ -1,7 +1,7 @@
 SPECIFICATION Spec
 CONSTANTS
-  Reqs = {1, 2}
-  MaxResends = 0
+  Reqs = {}
+  MaxResends = 1
   MaxRefresh = 2
   HookBeforeQuitCheck = FALSE
 INVARIANTS Conserved NeverAhead
